@@ -111,7 +111,10 @@ impl TokenList for &[Token] {
                 if token.range.start >= index {
                     break;
                 }
-                current = token;
+                // a comment does not change the syntactic position
+                if !matches!(token.token_type, TokenType::Comment(_)) {
+                    current = token;
+                }
             }
             Some(current)
         } else {
